@@ -1,6 +1,6 @@
 (* Props/C15.v — C15: reported line, column and context locate the offending byte.
    Statements only; each is closed by [exact] of a lemma proved under Position/. *)
-From Verif Require Import Common.Base Cursor.Model Position.Model Position.Total Position.Proofs.
+From Verif Require Import Common.Base Cursor.Model Position.Model Position.Spec Position.Total Position.Proofs.
 
 (* Position never panics and never exhausts its fuel: for every IsGraphic predicate, every byte
    string (valid UTF-8 or not) and every offset it returns a line >= 1, a column >= 1 and a context. *)
@@ -9,6 +9,32 @@ Theorem position_total :
     exists line col ctx, position graphic data offset = Done (line, col, ctx) /\ 1 <= line /\ 1 <= col.
 Proof. exact position_total_proof. Qed.
 Print Assumptions position_total.
+
+(* Line and column.  A valid UTF-8 text is the concatenation of the encodings (RFC 3629, utf8_decode) of
+   its code points cps.  Every offset 0 <= off <= len falls into exactly one unit cur of the text
+   (a code point, an unsplit \r\n pair, or nothing at the very end: [located]); pre is everything before
+   that unit, i.e. the code points and breaks that end at or before off.  Then
+     line = 1 + number of breaks (\n, \r, \r\n, U+2028, U+2029) in pre,
+     col  = 1 + number of code points of pre after its last break.
+   An offset inside a multi-byte character or on the \n of \r\n resolves to that character / pair. *)
+Theorem position_line_col :
+  forall (graphic : Z -> bool) (cps : list cp) (off : Z),
+    Forall cp_ok cps -> 0 <= off <= len (bytes cps) ->
+    (exists pre cur post, located cps off pre cur post) /\
+    (forall pre cur post, located cps off pre cur post ->
+       exists ctx, position graphic (bytes cps) off =
+                     Done (1 + breaks (runes pre), 1 + len (last_line (runes pre)), ctx)).
+Proof. exact position_line_col_full. Qed.
+Print Assumptions position_line_col.
+
+(* Offsets outside the text (the quantifier includes -1 and len+1): every offset <= 0 behaves as 0 and
+   every offset >= len as len — for all byte strings, not only valid UTF-8. *)
+Theorem position_clamp :
+  forall (graphic : Z -> bool) (data : list Z) (offset : Z),
+    (offset <= 0 -> position graphic data offset = position graphic data 0) /\
+    (len data <= offset -> position graphic data offset = position graphic data (len data)).
+Proof. exact position_clamp_proof. Qed.
+Print Assumptions position_clamp.
 
 (* A failing reader is reported as line 1, column 1 with the context of an empty line. *)
 Theorem position_reader_error :
